@@ -333,6 +333,35 @@ func (g *crashGen) blockSizeRotation(M int) {
 	g.putKeyLen(perm[0], 5+g.r.Intn(5))
 }
 
+// blockDeleteOverLimit: a Delete that starts while the memstore estimate is already over its limit M (only a preceding
+// Delete of an absent key can leave it there, a Put rotates at once), of a key whose value sits in a flushed table;
+// then the flusher goes idle and writes continue into the next log file.
+func (g *crashGen) blockDeleteOverLimit(M int) {
+	k := g.key()
+	g.putKeyLen(k, 6+g.r.Intn(6))
+	g.rotate()
+	g.waitflush()
+	long := make([]byte, M+8+g.r.Intn(8))
+	for i := range long {
+		long[i] = "ABCDEFGHIJKLMNOPQRSTUVWXYZ"[g.r.Intn(26)]
+	}
+	for _, key := range []string{hex.EncodeToString(long), k} {
+		kind := "del"
+		if g.r.Chance(50) {
+			kind = "delb"
+		}
+		o := g.add(kind, kind+" "+key)
+		o.Key, o.KeyTok = key, key
+		delete(g.current, key)
+		g.memKeys[key] = true
+	}
+	g.waitflush()
+	other := g.s.Keys[(g.keyIndex(k)+1+g.r.Intn(len(g.s.Keys)-1))%len(g.s.Keys)]
+	g.putKeyLen(other, 5+g.r.Intn(6))
+	g.rotate()
+	g.putKeyLen(g.s.Keys[(g.keyIndex(k)+1+g.r.Intn(len(g.s.Keys)-1))%len(g.s.Keys)], 5+g.r.Intn(6))
+}
+
 // blockRotatePut: writes racing with the flush of the memstore just rotated - the directory holds two log files (the
 // same key in both, older value in the older file) and a partial table
 func (g *crashGen) blockRotatePut() {
@@ -468,7 +497,8 @@ func crashGenSession(seed uint64, idx int, tier, flavour string, rank int) *cras
 		fmt.Sscanf(open[strings.Index(open, "mem=")+4:], "%d", &M)
 		g.randomOps(1+r.Intn(3), async, false)
 		g.blockSizeRotation(M)
-		g.randomOps(3+r.Intn(4)+extra, async, false)
+		g.randomOps(2+r.Intn(3)+extra, async, false)
+		g.blockDeleteOverLimit(M)
 		g.blockFlushedThenChange(async)
 	case "rotateput":
 		for i := 0; i < 3+r.Intn(2); i++ {
